@@ -43,11 +43,20 @@ def check(prop, tier):
     build_harness(["daemon"])
     runs = []
     for period in (10, 45, 60, 100, 300):
-        r = run_tlc("MCDaemon", cfg(constants={"Period": period, "MaxRuns": 8 if tier == "thorough" else 6, "FixCap": "TRUE"},
-                                    invariants=["Contract", "NeverBusy"]), f"{prop}-design-{period}", workers=4)
+        r = run_tlc("MCDaemon", cfg(constants={"Period": period, "MaxRuns": 8 if tier == "thorough" else 6, "FixCap": "TRUE", "ResetOnHup": "FALSE", "SwallowHup": "FALSE"},
+                                    invariants=["Contract", "NeverBusy", "SighupServed"]), f"{prop}-design-{period}", workers=4)
         if r["violated"]:
             raise ToolError(f"design check {r['name']} violated {r['violated']} (see {r['out']})")
         runs.append(r)
+    # the model must be able to express the two deviations around SIGHUP (negative controls)
+    for dev, inv in (("ResetOnHup", "Contract"), ("SwallowHup", "SighupServed")):
+        consts = {"Period": 300, "MaxRuns": 5, "FixCap": "TRUE", "ResetOnHup": "FALSE", "SwallowHup": "FALSE"}
+        consts[dev] = "TRUE"
+        n = run_tlc("MCDaemon", cfg(constants=consts, invariants=["Contract", "NeverBusy", "SighupServed"]), f"{prop}-design-{dev}", workers=2)
+        if n["violated"] != inv:
+            raise ToolError(f"MCDaemon: the deviation {dev} = TRUE was not refuted by {inv} (see {n['out']})")
+        n["violated"] = None; n["name"] += f" (expected {inv} violation: seen)"
+        runs.append(n)
     obligations, control = backoff_proof()
     depth = 6 if tier == "thorough" else 4
     g = run_tlc("DaemonGen", f"SPECIFICATION Spec\nCONSTANTS Depth = {depth}\n", f"{prop}-gen", workers=1, java_opts="-Xss512m")
@@ -60,10 +69,13 @@ def check(prop, tier):
         raise ToolError("DaemonGen printed no cases")
     rng = random.Random(seed())
     rng.shuffle(cases)
-    budget = 3000 if tier == "thorough" else 500
-    nosig = [c for c in cases if not c["signals"]]
-    withsig = [c for c in cases if c["signals"]]
-    chosen = nosig[: budget // 2] + withsig[: budget - min(len(nosig), budget // 2)]
+    budget = 3600 if tier == "thorough" else 700
+    # a share of the budget for every family: no signal, a signal in a waiting interval, one racing with the timer, one
+    # that arrives while a run is in progress
+    fam = lambda c: "none" if not c["signals"] else "during" if c["signals"][0].get("during") else "tick" if c["signals"][0].get("same_poll") else "wait"
+    chosen = []
+    for f, share in (("none", 0.3), ("wait", 0.35), ("tick", 0.15), ("during", 0.2)):
+        chosen += [c for c in cases if fam(c) == f][: int(budget * share)]
     for c in long_cases:
         c["horizon"] = len(c["jobs"]) * max(60, c["period"]) + 200
     chosen += long_cases
@@ -108,7 +120,7 @@ def check(prop, tier):
                    "advanced 1 s at a time, with real signals; DaemonTrace.tla checks every delay between runs, SIGHUP immediacy, prompt clean exit"}
     write_evidence(prop, tier, "model_checking", cov,
                    ["the job outcome is scripted through the cfg-guarded hook bgpfu_junos_agent::verif (the NETCONF/IRR round trip is replaced, the loop is the real one)",
-                    "signals are only raised while the loop is waiting and never at a tick instant (select! order is random there)"],
+                    "signals are raised while the loop is waiting, at the instant its timer fires (either may be served first: both orders accepted) and while a run is in progress (SIGHUP: a run right behind the current one; SIGINT/SIGTERM: exit when they arrive or when the run ends)"],
                    time.time() - t0, len(verdict.violations))
     return verdict.exit_code()
 
